@@ -318,7 +318,7 @@ type c18Resp struct {
 	pubs []*mw.Packet // PUBLISH, in order of arrival
 }
 
-func c18IsPub(p *mw.Packet) bool { return p.Type == mw.PUBLISH }
+func c18IsPub(p *mw.Packet) bool  { return p.Type == mw.PUBLISH }
 func c18NotPub(p *mw.Packet) bool { return p.Type != mw.PUBLISH }
 
 // c18Reference sends the stream in one piece over the in-memory transport to a fresh broker
